@@ -105,14 +105,14 @@ _DEPTH = re.compile(r"The depth of the complete state graph search is (\d+)")
 
 
 def run_model(module: str, cfg: str = None, workdir: str = None, workers=16, dump: str = None,
-              extra=(), timeout=3600, heap="8g", env=None) -> dict:
+              dump_kind="states", extra=(), timeout=3600, heap="8g", env=None) -> dict:
     """Run TLC on a bounded model.  Returns stats, raw output, violated flag."""
     cfg = cfg or module
     meta = os.path.join(workdir, "meta-" + cfg)
     args = ["-workers", str(workers), "-metadir", meta, "-noGenerateSpecTE", "-coverage", "1",
             "-config", os.path.join(SPEC, cfg + ".cfg")]
     if dump:
-        args += ["-dump", dump]
+        args += ["-dump"] + (["dot,actionlabels"] if dump_kind == "dot" else []) + [dump]
     args += list(extra) + [os.path.join(SPEC, module + ".tla")]
     rc, out, wall = _java(args, cwd=SPEC, timeout=timeout, heap=heap, env=env)
     shutil.rmtree(meta, ignore_errors=True)
